@@ -113,6 +113,14 @@ Fixpoint store_junk_loop (uids0 : list Z) (seqs : list Z) (mbox : list msg) : li
 Definition handle_store_junk (set : str) (mbox : list msg) : list Z * list Z * list msg :=
   store_junk_loop (map m_uid mbox) (parse_seqset_db set (Z.of_nat (length mbox))) mbox.
 
+(** uid.handleUIDStore with the auto-move: the UIDs of ParseUIDSequenceSetWithDB in
+    the parser's order (comma lists keep the client's order); per UID the row is
+    looked up in the CURRENT table with its current rank (COUNT subquery); not
+    found => continue; otherwise moved away and "* rank EXPUNGE" *)
+Definition handle_uidstore_junk (set : str) (mbox : list msg) : list Z * list Z * list msg :=
+  let targets := parse_uidset_db set (map m_uid mbox) in
+  store_junk_loop targets (zrange 1 (Z.of_nat (length targets))) mbox.
+
 (** ---- counts and listings ---- *)
 Definition exists_count (mbox : list msg) : Z := Z.of_nat (length mbox).
 Definition search_all (mbox : list msg) : list Z := map fst (label_from 1 (map m_uid mbox)).
